@@ -32,6 +32,12 @@ func genCtl(r *simrt.Rand, tier string, flavor string) json.RawMessage {
 		c.Faults = true
 		c.Cfg.Net = genNet(r)
 	}
+	if flavor == "C18" && r.Bool(0.25) {
+		return genCtlReplayBurst(r, c)
+	}
+	if flavor == "C14" && r.Bool(0.2) {
+		return genCtlReplicaChangeBetweenSnapshots(r, c)
+	}
 	slot := 0
 	nodes := c.Nodes
 	maxNodes := 5
@@ -76,6 +82,91 @@ func genCtl(r *simrt.Rand, tier string, flavor string) json.RawMessage {
 		default:
 			c.Ops = append(c.Ops, W3Op{K: "wait", Ms: r.Range(200, 2000)})
 		}
+	}
+	b, _ := json.Marshal(CtlCase{W3: c})
+	return b
+}
+
+// genCtlReplayBurst: the burst a restart replays. One node creates datasets whose
+// replication factor exceeds the cluster (every later join makes the allocator propose
+// replica changes), five or more membership changes follow, then further catalogue
+// changes, then the primary (or everyone) restarts and replays all of it at once.
+func genCtlReplayBurst(r *simrt.Rand, c W3Case) json.RawMessage {
+	c.Nodes = 1
+	c.Cfg.SnapshotOffset = []int64{5000, 5000, 3}[r.Intn(3)]
+	slot := 0
+	for i, n := 0, r.Range(1, 2); i < n; i++ {
+		slot++
+		c.Ops = append(c.Ops, W3Op{K: "create", Node: 1, DS: slot, P: r.Range(1, 3), R: r.Range(4, 10)})
+	}
+	nodes := 1
+	for j, n := 0, r.Range(4, 6); j < n; j++ {
+		nodes++
+		c.Ops = append(c.Ops, W3Op{K: "join", Node: nodes, Async: r.Bool(0.3)})
+	}
+	if r.Bool(0.5) {
+		c.Ops = append(c.Ops, W3Op{K: "removenode", Node: 1, A: r.Range(2, nodes)})
+	}
+	for i, n := 0, r.Range(1, 4); i < n; i++ {
+		if slot > 1 && r.Bool(0.25) {
+			c.Ops = append(c.Ops, W3Op{K: "delete", Node: r.Range(1, nodes), DS: r.Range(1, slot), Async: r.Bool(0.3)})
+		} else {
+			slot++
+			c.Ops = append(c.Ops, W3Op{K: "create", Node: r.Range(1, nodes), DS: slot, P: r.Range(1, 3), R: r.Range(1, 10), Async: r.Bool(0.3)})
+		}
+	}
+	if r.Bool(0.7) {
+		c.Ops = append(c.Ops, W3Op{K: "crash", Node: 1}, W3Op{K: "wait", Ms: r.Range(100, 3000)}, W3Op{K: "restart", Node: 1})
+	} else {
+		c.Ops = append(c.Ops, W3Op{K: "crashall"}, W3Op{K: "wait", Ms: 300})
+		for j := 1; j <= nodes; j++ {
+			c.Ops = append(c.Ops, W3Op{K: "restart", Node: j})
+		}
+	}
+	if r.Bool(0.5) {
+		slot++
+		c.Ops = append(c.Ops, W3Op{K: "create", Node: r.Range(1, nodes), DS: slot, P: r.Range(1, 3), R: r.Range(1, 3), Async: r.Bool(0.5)})
+	}
+	b, _ := json.Marshal(CtlCase{W3: c})
+	return b
+}
+
+// genCtlReplicaChangeBetweenSnapshots: the catalogue is cut into a snapshot, then only
+// replica sets change (members join under-replicated datasets or are removed; no dataset
+// comes or goes), then the next snapshot is cut and members restart from it.
+func genCtlReplicaChangeBetweenSnapshots(r *simrt.Rand, c W3Case) json.RawMessage {
+	c.Nodes = r.Range(1, 2)
+	c.Cfg.SnapshotOffset = int64(r.Range(1, 3))
+	nodes, slot := c.Nodes, 0
+	for i, n := 0, r.Range(1, 3); i < n; i++ {
+		slot++
+		c.Ops = append(c.Ops, W3Op{K: "create", Node: r.Range(1, nodes), DS: slot, P: r.Range(1, 3), R: r.Range(nodes+1, 4)})
+	}
+	snap := W3Op{K: "wait", Ms: r.Range(10200, 12000)}
+	c.Ops = append(c.Ops, snap)
+	for i, n := 0, r.Range(1, 2); i < n; i++ {
+		if nodes > 2 && r.Bool(0.3) {
+			c.Ops = append(c.Ops, W3Op{K: "removenode", Node: 1, A: r.Range(2, nodes)})
+		} else {
+			nodes++
+			c.Ops = append(c.Ops, W3Op{K: "join", Node: nodes})
+		}
+		c.Ops = append(c.Ops, W3Op{K: "wait", Ms: r.Range(500, 3000)})
+	}
+	if r.Bool(0.3) { // an unknown id: an entry that changes nothing
+		c.Ops = append(c.Ops, W3Op{K: "delete", Node: 1, DS: 99})
+	}
+	c.Ops = append(c.Ops, snap)
+	switch r.Intn(3) {
+	case 0:
+		n := r.Range(1, nodes)
+		c.Ops = append(c.Ops, W3Op{K: "crash", Node: n}, W3Op{K: "wait", Ms: r.Range(100, 3000)}, W3Op{K: "restart", Node: n})
+	case 1:
+		c.Ops = append(c.Ops, W3Op{K: "crashall"}, W3Op{K: "wait", Ms: 300})
+		for j := 1; j <= nodes; j++ {
+			c.Ops = append(c.Ops, W3Op{K: "restart", Node: j})
+		}
+	default: // the final phase of the scenario restarts everyone
 	}
 	b, _ := json.Marshal(CtlCase{W3: c})
 	return b
@@ -439,12 +530,17 @@ func execCtl(prop string, raw json.RawMessage, wantLog bool) (out Outcome) {
 		for _, n := range r.aliveNodes() {
 			var h *histOp
 			ok := false
-			for attempt := 0; attempt < 5 && !ok; attempt++ {
-				h = r.createDataset(1000+n.idx*10+attempt, n, 1, 1, 2, 0, true)
+			// Bounded liveness, not latency: a create gives up by itself after one second,
+			// which a large, busy (but live) cluster can exceed several times in a row.
+			// A wedged control plane never answers; 60 simulated seconds of attempts tell
+			// the two apart.
+			start, attempts := s.now(), 0
+			for ; !ok && (attempts < 5 || s.now()-start < 60*time.Second); attempts++ {
+				h = r.createDataset(1000+n.idx*100+attempts, n, 1, 1, 2, 0, true)
 				ok = h.done && h.err == nil
 			}
 			if !ok {
-				r.viol("canary-create-fails", "after everything settled, five successive dataset creations through n%d failed, the last with: %v", n.idx, h.err)
+				r.viol("canary-create-fails", "after everything settled, %d successive dataset creations through n%d over %v failed, the last with: %v", attempts, n.idx, s.now()-start, h.err)
 				return
 			}
 		}
